@@ -301,9 +301,21 @@ impl<C: MlsConfig, E: ExternalMlsConfig + Clone> World<C, E> {
             "reinit": g.verif_has_pending_reinit(),
             "nprops": g.get_cached_proposals().len(),
             "snap": snap.as_ref().map(|s| it.id(s)),
+            // order-insensitive digest of the snapshot (hash-map valued parts are encoded in
+            // iteration order): the multiset of its bytes together with its length
+            "snap_bag": snap.as_ref().map(|s| {
+                let mut b = s.clone();
+                b.sort_unstable();
+                it.id(&b)
+            }),
             "stored_epochs": stored,
             "stored_max": m.gstore.probe_max(&gid),
             "stored_state": stored_state.as_ref().map(|s| it.id(s)),
+            "stored_bag": stored_state.as_ref().map(|s| {
+                let mut b = s.clone();
+                b.sort_unstable();
+                it.id(&b)
+            }),
             "kp_store": m.kpstore.inner.key_packages().iter().map(|(r, _)| hex::encode(r)).collect::<Vec<_>>(),
             "sub": m.sub.as_ref().map(|sg| {
                 let names: Vec<String> = sg.roster().members_iter().map(|mm| mm.signing_identity.credential.as_basic().map(|b| String::from_utf8_lossy(&b.identifier).to_string()).unwrap_or_default()).collect();
@@ -556,6 +568,14 @@ impl<C: MlsConfig, E: ExternalMlsConfig + Clone> World<C, E> {
                     bytes.extend_from_slice(&[0x5au8; 32]);
                     let p = mls_rs::group::proposal::Proposal::mls_decode(&mut &*bytes).map_err(|e| format!("raw_psk:{e:?}"))?;
                     b = b.raw_proposal(p);
+                }
+                if op["new_id"].as_bool().unwrap_or(false) {
+                    // the committer rotates its signature key in this commit (same basic identity)
+                    use mls_rs_core::crypto::{CipherSuiteProvider, CryptoProvider};
+                    let cs = mls_rs_crypto_openssl::OpensslCryptoProvider::default().cipher_suite_provider(suite).ok_or("nosuite")?;
+                    let (sk, pk) = cs.signature_key_generate().map_err(|e| format!("{e:?}"))?;
+                    let ident = SigningIdentity::new(BasicCredential::new(who.as_bytes().to_vec()).into_credential(), pk);
+                    b = b.set_new_signing_identity(sk, ident);
                 }
                 b = b.authenticated_data(aad);
                 let (out, secrets) = if detached {
@@ -879,6 +899,9 @@ impl<C: MlsConfig, E: ExternalMlsConfig + Clone> World<C, E> {
                         b = b.with_removal(old.current_member_index());
                     }
                 }
+                for p in op["psk"].as_array().cloned().unwrap_or_default() {
+                    b = b.with_external_psk(mls_rs::psk::ExternalPskId::new(hexd(&p)));
+                }
                 let (g, msg) = mls!(b.build(gi));
                 m.group = Some(g);
                 self.msgs.insert(id, mls!(msg.to_bytes()));
@@ -1000,7 +1023,12 @@ impl<C: MlsConfig, E: ExternalMlsConfig + Clone> World<C, E> {
                     kps.push(self.msg(k.as_str().unwrap_or(""))?);
                 }
                 let g = grp!().clone();
-                let rc = mls!(g.get_reinit_client(None, None));
+                // "as": the creator of the successor comes back under another configured party's identity
+                let alt = op["as"].as_str().and_then(|n| self.members.get(n)).map(|m| (m.signer.clone(), m.identity.clone()));
+                let rc = match alt {
+                    Some((sk, idn)) => mls!(g.get_reinit_client(Some(sk), Some(idn))),
+                    None => mls!(g.get_reinit_client(None, None)),
+                };
                 let (ng, welcomes) = mls!(rc.commit(kps, ExtensionList::new(), None));
                 for (i, w) in welcomes.iter().enumerate() {
                     self.msgs.insert(format!("{id}.w{i}"), mls!(w.to_bytes()));
